@@ -7,7 +7,7 @@ import json
 import vlib
 from vlib import cZ, clist, cpair
 
-UNIVERSE = [0, 1, 2, 3, 4, 5, 6, 7, "a", "b", (1, 2), (0,)]
+UNIVERSE = [0, 1, 2, 3, 4, 5, 6, 7, "a", "b", (1, 2), (0,), None, "", False.__class__, ...]
 SRC = ["src/pynguin/utils/orderedset.py"]
 
 UPD = ["Update", "IntersectionUpdate", "SymDiffUpdate", "IOr", "IAnd", "ISub", "IXor"]
